@@ -488,16 +488,6 @@ theorem nodup_changedPathOrder (a b : FMap Entry) : (changedPathOrder a b).Nodup
   nodup_sortPaths (nodup_dedupPaths _)
 
 
-/-- No path of the list lies below another one. -/
-def AncFree (K : List Path) : Prop := K.all (fun p => K.all (fun q => !isAncestor p q)) = true
-
-instance (K : List Path) : Decidable (AncFree K) := by unfold AncFree; infer_instance
-
-theorem AncFree.apply {K : List Path} (h : AncFree K) {p q : Path} (hp : p ∈ K) (hq : q ∈ K) :
-    isAncestor p q = false := by
-  have := (List.all_eq_true.mp ((List.all_eq_true.mp h) p hp)) q hq
-  simpa using this
-
 namespace FMap
 variable {α : Type}
 
@@ -513,36 +503,6 @@ theorem mem_keys_put {m : FMap α} {p k : Path} {v : α} (h : k ∈ (put m p v).
   · exact Or.inr (mem_keys_erase h)
 
 end FMap
-
-/-- With all directory entries among `K` and `K` free of ancestor pairs, `lstat` of a path of `K`
-depends on that path alone. -/
-theorem free_view {wd : FMap WFile} {K : List Path} {p : Path}
-    (hkeys : ∀ k ∈ wd.keys, k ∈ K) (hK : AncFree K) (hp : p ∈ K) :
-    hasFileAncestor wd p = false ∧ hasDescendant wd p = false ∧ hasLinkAncestor wd p = false := by
-  refine ⟨?_, ?_, ?_⟩
-  · unfold hasFileAncestor
-    rw [List.any_eq_false]
-    intro k hk
-    simp [hK.apply (hkeys k hk) hp]
-  · unfold hasDescendant
-    rw [List.any_eq_false]
-    intro k hk
-    simp [hK.apply hp (hkeys k hk)]
-  · unfold hasLinkAncestor
-    rw [List.any_eq_false]
-    intro k hk
-    simp [hK.apply (hkeys k hk) hp]
-
-theorem free_view_some {wd : FMap WFile} {K : List Path} {p : Path} {f : WFile}
-    (hkeys : ∀ k ∈ wd.keys, k ∈ K) (hK : AncFree K) (hp : p ∈ K) (hg : wd.get p = some f) :
-    lstatView wd p = .file f :=
-  lstatView_noAnc_some (free_view hkeys hK hp).1 hg
-
-theorem free_view_none {wd : FMap WFile} {K : List Path} {p : Path}
-    (hkeys : ∀ k ∈ wd.keys, k ∈ K) (hK : AncFree K) (hp : p ∈ K) (hg : wd.get p = none) :
-    lstatView wd p = .enoent := by
-  rw [lstatView_noAnc_none (free_view hkeys hK hp).1 hg, (free_view hkeys hK hp).2.1]
-  rfl
 
 def fileOf (y : Entry) (o : StatKey × LinkRes) : WFile := ⟨y.kind, y.cid, o.1, o.2⟩
 
@@ -602,97 +562,6 @@ theorem applyChanges_two {obs : Obs} {s s' s'' : WT} {c d : Change} (h : applyCh
     applyChanges obs s [c, d] = (s'', none) := by
   simp [applyChanges, h, h']
 
-/-- Processing the changes at one path, from the state a clean checkout of `a` left there. -/
-theorem applyChangesAt {a b : FMap Entry} {fA : FMap WFile} {obs : Obs} {K : List Path} {s : WT} {p : Path}
-    (hK : AncFree K) (hkeys : ∀ k ∈ s.wd.keys, k ∈ K) (hp : p ∈ K)
-    (hva : ∀ x, a.get p = some x → validPath p = true) (hvb : ∀ y, b.get p = some y → validPath p = true)
-    (hobs : ∀ y, b.get p = some y → ∃ o, obs.get p = some o)
-    (hfA0 : a.get p = none → fA.get p = none)
-    (hfA1 : ∀ x, a.get p = some x → ∃ f, fA.get p = some f ∧ f.entry = x)
-    (hwd : s.wd.get p = fA.get p) (hidx : s.index.get p = (fA.get p).map WFile.ientry) :
-    ∃ s', applyChanges obs s (changesAt a b p) = (s', none) ∧ (∀ k ∈ s'.wd.keys, k ∈ K) ∧
-      s'.wd.get p = targetWd a b fA obs p ∧
-      s'.index.get p = (targetWd a b fA obs p).map WFile.ientry ∧
-      ∀ q, q ≠ p → s'.wd.get q = s.wd.get q ∧ s'.index.get q = s.index.get q := by
-  have hfree := free_view hkeys hK hp
-  -- the two possible results: erase both, or write both
-  have erased : ∀ s1 : WT, s1 = ⟨s.wd.erase p, s.index.erase p⟩ →
-      (∀ k ∈ s1.wd.keys, k ∈ K) ∧ s1.wd.get p = none ∧ s1.index.get p = none ∧
-      ∀ q, q ≠ p → s1.wd.get q = s.wd.get q ∧ s1.index.get q = s.index.get q := by
-    intro s1 h1
-    subst h1
-    exact ⟨fun k hk => hkeys k (FMap.mem_keys_erase hk), FMap.get_erase_same _ _, FMap.get_erase_same _ _,
-      fun q hq => ⟨FMap.get_erase_ne _ hq, FMap.get_erase_ne _ hq⟩⟩
-  have written : ∀ (wd0 : FMap WFile) (ix0 : FMap IEntry) (f : WFile), (∀ k ∈ wd0.keys, k ∈ K) →
-      (∀ k ∈ (wd0.put p f).keys, k ∈ K) ∧ (wd0.put p f).get p = some f ∧
-      (ix0.put p f.ientry).get p = some f.ientry ∧
-      ∀ q, q ≠ p → (wd0.put p f).get q = wd0.get q ∧ (ix0.put p f.ientry).get q = ix0.get q := by
-    intro wd0 ix0 f hk0
-    refine ⟨?_, FMap.get_put_same _ _ _, FMap.get_put_same _ _ _,
-      fun q hq => ⟨FMap.get_put_ne _ _ hq, FMap.get_put_ne _ _ hq⟩⟩
-    intro k hk
-    rcases FMap.mem_keys_put hk with e | e
-    · rw [e]; exact hp
-    · exact hk0 k e
-  unfold changesAt targetWd
-  cases ha : a.get p with
-  | none =>
-    have hn : s.wd.get p = none := by rw [hwd, hfA0 ha]
-    cases hb : b.get p with
-    | none =>
-      refine ⟨s, rfl, hkeys, ?_, ?_, fun q _ => ⟨rfl, rfl⟩⟩
-      · simp [hn]
-      · simp [hidx, hfA0 ha]
-    | some y =>
-      obtain ⟨o, ho⟩ := hobs y hb
-      have hstep := @transitionToFile_absent obs s p y o (hvb y hb) hfree.2.2 (free_view_none hkeys hK hp hn) ho
-      obtain ⟨w1, w2, w3, w4⟩ := written s.wd s.index (fileOf y o) hkeys
-      refine ⟨_, applyChanges_one (c := .add p y) hstep, w1, ?_, ?_, w4⟩
-      · simp [w2, ho]
-      · simp [w3, ho]
-  | some x =>
-    obtain ⟨f, hf, hfx⟩ := hfA1 x ha
-    have hg : s.wd.get p = some f := by rw [hwd, hf]
-    have hview := free_view_some hkeys hK hp hg
-    have hdel := @transitionToAbsent_file s p f (hva x ha) hview
-    obtain ⟨e1, e2, e3, e4⟩ := erased _ rfl
-    cases hb : b.get p with
-    | none =>
-      refine ⟨_, applyChanges_one (c := .delete p x) hdel, e1, ?_, ?_, e4⟩
-      · simp [e2]
-      · simp [e3]
-    | some y =>
-      obtain ⟨o, ho⟩ := hobs y hb
-      by_cases hxy : x = y
-      · subst hxy
-        refine ⟨s, by simp [applyChanges], hkeys, ?_, ?_, fun q _ => ⟨rfl, rfl⟩⟩
-        · simp [hwd]
-        · simp [hidx]
-      · have hne : ¬ (some x = some y) := fun e => hxy (Option.some.inj e)
-        simp only [hxy, if_false, hne]
-        by_cases hlk : isLink x.kind = isLink y.kind
-        · -- modify: the file on disk does not match, it is rewritten
-          have hfk : isLink f.kind = isLink y.kind := by rw [← hlk, ← hfx]; rfl
-          have hstep := @transitionToFile_differs obs s p y o f (hvb y hb) hfree.2.2 hview
-            (by rw [hfx]; exact hxy) hfk ho
-          obtain ⟨w1, w2, w3, w4⟩ := written s.wd s.index (fileOf y o) hkeys
-          refine ⟨_, by simpa [hlk] using applyChanges_one (c := .modify p x y) hstep, w1, ?_, ?_, w4⟩
-          · simp [w2, ho]
-          · simp [w3, ho]
-        · -- type change: delete, then add
-          have hfree1 := free_view (wd := s.wd.erase p) e1 hK hp
-          have hstep := @transitionToFile_absent obs ⟨s.wd.erase p, s.index.erase p⟩ p y o (hvb y hb)
-            hfree1.2.2 (free_view_none e1 hK hp e2) ho
-          obtain ⟨w1, w2, w3, w4⟩ := written (s.wd.erase p) (s.index.erase p) (fileOf y o) e1
-          have hlk' : (isLink x.kind != isLink y.kind) = true := by simpa using hlk
-          refine ⟨_, by simpa [hlk'] using applyChanges_two (c := .delete p x) (d := .add p y) hdel hstep,
-            w1, ?_, ?_, ?_⟩
-          · simp [w2, ho]
-          · simp [w3, ho]
-          · intro q hq
-            exact ⟨(w4 q hq).1.trans (e4 q hq).1, (w4 q hq).2.trans (e4 q hq).2⟩
-
-
 theorem applyChanges_append (obs : Obs) (s : WT) (c1 c2 : List Change) :
     applyChanges obs s (c1 ++ c2) =
       match applyChanges obs s c1 with
@@ -705,50 +574,6 @@ theorem applyChanges_append (obs : Obs) (s : WT) (c1 c2 : List Change) :
     cases h : applyChange obs s c with
     | ok s1 => simp only [ih]
     | error e => simp
-
-/-- Processing the changes at every path of a duplicate-free list, from the state a clean checkout
-of `a` left at those paths. -/
-theorem applyChanges_paths {a b : FMap Entry} {fA : FMap WFile} {obs : Obs} {K : List Path}
-    (hK : AncFree K)
-    (hva : ∀ p x, a.get p = some x → validPath p = true) (hvb : ∀ p y, b.get p = some y → validPath p = true)
-    (hobs : ∀ p y, b.get p = some y → ∃ o, obs.get p = some o)
-    (hfA0 : ∀ p, a.get p = none → fA.get p = none)
-    (hfA1 : ∀ p x, a.get p = some x → ∃ f, fA.get p = some f ∧ f.entry = x)
-    (L : List Path) (hL : L.Nodup) (hLK : ∀ p ∈ L, p ∈ K) (s : WT)
-    (hkeys : ∀ k ∈ s.wd.keys, k ∈ K)
-    (hA : ∀ p ∈ L, s.wd.get p = fA.get p ∧ s.index.get p = (fA.get p).map WFile.ientry) :
-    ∃ s', applyChanges obs s (L.flatMap (changesAt a b)) = (s', none) ∧ (∀ k ∈ s'.wd.keys, k ∈ K) ∧
-      (∀ p ∈ L, s'.wd.get p = targetWd a b fA obs p ∧
-        s'.index.get p = (targetWd a b fA obs p).map WFile.ientry) ∧
-      (∀ q, q ∉ L → s'.wd.get q = s.wd.get q ∧ s'.index.get q = s.index.get q) := by
-  induction L generalizing s with
-  | nil => exact ⟨s, rfl, hkeys, fun _ h => absurd h List.not_mem_nil, fun _ _ => ⟨rfl, rfl⟩⟩
-  | cons p r ih =>
-    rw [List.nodup_cons] at hL
-    have hpK := hLK p List.mem_cons_self
-    obtain ⟨s1, h1, k1, w1, i1, o1⟩ := applyChangesAt (a := a) (b := b) (fA := fA) (obs := obs) hK hkeys hpK
-      (hva p) (hvb p) (hobs p) (hfA0 p) (hfA1 p) (hA p List.mem_cons_self).1 (hA p List.mem_cons_self).2
-    have hA1 : ∀ q ∈ r, s1.wd.get q = fA.get q ∧ s1.index.get q = (fA.get q).map WFile.ientry := by
-      intro q hq
-      have hqp : q ≠ p := fun e => hL.1 (e ▸ hq)
-      rw [(o1 q hqp).1, (o1 q hqp).2]
-      exact hA q (List.mem_cons_of_mem _ hq)
-    obtain ⟨s2, h2, k2, t2, o2⟩ := ih hL.2 (fun q hq => hLK q (List.mem_cons_of_mem _ hq)) s1 k1 hA1
-    refine ⟨s2, ?_, k2, ?_, ?_⟩
-    · rw [List.flatMap_cons, applyChanges_append, h1]
-      exact h2
-    · intro q hq
-      rcases List.mem_cons.mp hq with e | e
-      · subst e
-        rw [(o2 q hL.1).1, (o2 q hL.1).2]
-        exact ⟨w1, i1⟩
-      · exact t2 q e
-    · intro q hq
-      have hqp : q ≠ p := fun e => hq (e ▸ List.mem_cons_self)
-      have hqr : q ∉ r := fun e => hq (List.mem_cons_of_mem _ e)
-      rw [(o2 q hqr).1, (o2 q hqr).2]
-      exact o1 q hqp
-
 
 theorem foldl_ok {β : Type} (step : Except WErr Unit → β → Except WErr Unit) (l : List β)
     (h : ∀ x ∈ l, step (.ok ()) x = .ok ()) : l.foldl step (.ok ()) = .ok () := by
@@ -880,14 +705,6 @@ theorem Synced.treeOf {w : World} (h : Synced w) (p : Path) : (treeOf w.index).g
   cases w.wd.get p <;> rfl
 
 
-theorem treeWF_of_ancFree {a b : FMap Entry} (h : AncFree (a.keys ++ b.keys)) : TreeWF a := by
-  unfold TreeWF
-  rw [List.all_eq_true]
-  intro p hp
-  simp only [hasFileAncestor, Bool.not_eq_eq_eq_not, Bool.not_true, List.any_eq_false]
-  intro k hk
-  simp [h.apply (List.mem_append_left _ hk) (List.mem_append_left _ hp)]
-
 theorem checkedOut_synced {t : FMap Entry} {obs : Obs} (hobs : t.keys.all obs.has = true) (hwf : TreeWF t) :
     Synced (checkedOut t obs) := by
   refine ⟨fun p => checkedOut_index_get t obs p, ?_, ?_⟩
@@ -910,31 +727,6 @@ theorem checkUncommitted_synced {w : World} (h : Synced w) (b : FMap Entry) : ch
   unfold checkUncommitted
   rw [h.status]
   rfl
-
-theorem preCheckDirs_free {wd : FMap WFile} {a b : FMap Entry} (hK : AncFree (a.keys ++ b.keys)) :
-    preCheckDirs wd (changes a b) = .ok () := by
-  unfold preCheckDirs
-  apply foldl_ok
-  intro ch hch
-  cases ch with
-  | add p e => rfl
-  | modify p x y => rfl
-  | delete p old =>
-    have hp : p ∈ a.keys ++ b.keys := (changes_mem hch).1
-    have hany : (changes a b).any (writesBelow p) = false := by
-      rw [List.any_eq_false]
-      intro c hc
-      have hq : c.path ∈ a.keys ++ b.keys := (changes_mem hc).1
-      cases c with
-      | delete q o => simp [writesBelow]
-      | add q e =>
-        have hq' : q ∈ a.keys ++ b.keys := hq
-        simp [writesBelow, hK.apply hp hq']
-      | modify q x y =>
-        have hq' : q ∈ a.keys ++ b.keys := hq
-        simp [writesBelow, hK.apply hp hq']
-    simp only [hany]
-    rfl
 
 /-- In a synced world the files are what HEAD says, so the "uncommitted modifications" check passes. -/
 theorem preCheckModified_synced {w : World} (h : Synced w) (b : FMap Entry) :
@@ -964,5 +756,386 @@ theorem preCheckModified_synced {w : World} (h : Synced w) (b : FMap Entry) :
   | modify p x y => exact chk p x (h3 p x y rfl)
   | delete p old => exact chk p old (h2 p old rfl)
 
+
+/-! ### the walk order is a strict total order in which a directory precedes what is below it -/
+
+theorem keyLt_irrefl : ∀ a : List Nat, keyLt a a = false
+  | [] => rfl
+  | x :: r => by simp [keyLt, keyLt_irrefl r]
+
+theorem keyLt_trans : ∀ {a b c : List Nat}, keyLt a b = true → keyLt b c = true → keyLt a c = true
+  | [], [], _, h, _ => by simp [keyLt] at h
+  | [], _ :: _, [], _, h => by simp [keyLt] at h
+  | [], _ :: _, _ :: _, _, _ => by simp [keyLt]
+  | _ :: _, [], _, h, _ => by simp [keyLt] at h
+  | _ :: _, _ :: _, [], _, h => by simp [keyLt] at h
+  | x :: a, y :: b, z :: c, h1, h2 => by
+    simp only [keyLt, Bool.or_eq_true, decide_eq_true_eq, Bool.and_eq_true, beq_iff_eq] at h1 h2 ⊢
+    rcases h1 with h1 | ⟨e1, h1⟩ <;> rcases h2 with h2 | ⟨e2, h2⟩
+    · left; omega
+    · left; omega
+    · left; omega
+    · right; exact ⟨by omega, keyLt_trans h1 h2⟩
+
+theorem keyLt_total : ∀ (a b : List Nat), keyLt a b = true ∨ a = b ∨ keyLt b a = true
+  | [], [] => Or.inr (Or.inl rfl)
+  | [], _ :: _ => Or.inl (by simp [keyLt])
+  | _ :: _, [] => Or.inr (Or.inr (by simp [keyLt]))
+  | x :: a, y :: b => by
+    simp only [keyLt, Bool.or_eq_true, decide_eq_true_eq, Bool.and_eq_true, beq_iff_eq, List.cons.injEq]
+    rcases Nat.lt_trichotomy x y with h | h | h
+    · left; left; exact h
+    · rcases keyLt_total a b with h' | h' | h'
+      · left; right; exact ⟨h, h'⟩
+      · right; left; exact ⟨h, h'⟩
+      · right; right; right; exact ⟨h.symm, h'⟩
+    · right; right; left; exact h
+
+theorem pathKey_inj : ∀ {p q : Path}, pathKey p = pathKey q → p = q
+  | [], [], _ => rfl
+  | [], _ :: _, h => by simp [pathKey] at h
+  | _ :: _, [], h => by simp [pathKey] at h
+  | x :: p, y :: q, h => by
+    simp only [pathKey, List.map_cons, List.cons.injEq] at h
+    obtain ⟨h1, h2⟩ := h
+    have := @pathKey_inj p q h2
+    subst this
+    congr 1
+    by_cases hx : x = slash <;> by_cases hy : y = slash <;> simp only [hx, hy, if_true, if_false] at h1
+    · rw [hx, hy]
+    · omega
+    · omega
+    · exact UInt8.toNat_inj.mp (by omega)
+
+theorem pathLt_irrefl (p : Path) : pathLt p p = false := keyLt_irrefl _
+
+theorem pathLt_trans {p q r : Path} (h1 : pathLt p q = true) (h2 : pathLt q r = true) : pathLt p r = true :=
+  keyLt_trans h1 h2
+
+theorem pathLt_total (p q : Path) : pathLt p q = true ∨ p = q ∨ pathLt q p = true := by
+  rcases keyLt_total (pathKey p) (pathKey q) with h | h | h
+  · exact Or.inl h
+  · exact Or.inr (Or.inl (pathKey_inj h))
+  · exact Or.inr (Or.inr h)
+
+theorem pathLt_asymm {p q : Path} (h : pathLt p q = true) : pathLt q p = false := by
+  cases h' : pathLt q p with
+  | false => rfl
+  | true => have := pathLt_trans h h'; rw [pathLt_irrefl] at this; cases this
+
+/-- a proper prefix sorts first -/
+theorem keyLt_append : ∀ (a : List Nat) (x : Nat) (r : List Nat), keyLt a (a ++ x :: r) = true
+  | [], _, _ => by simp [keyLt]
+  | y :: a, x, r => by simp [keyLt, keyLt_append a x r]
+
+theorem isAncestor_pathLt {a p : Path} (h : isAncestor a p = true) : pathLt a p = true := by
+  unfold isAncestor at h
+  rw [List.isPrefixOf_iff_prefix] at h
+  obtain ⟨t, ht⟩ := h
+  unfold pathLt
+  rw [← ht]
+  simp only [pathKey, List.map_append, List.map_cons, List.append_assoc, List.cons_append, List.nil_append]
+  exact keyLt_append _ _ _
+
+
+theorem hasFileAncestor_false_iff {α : Type} (m : FMap α) (p : Path) :
+    hasFileAncestor m p = false ↔ ∀ k, isAncestor k p = true → m.get k = none := by
+  unfold hasFileAncestor
+  rw [List.any_eq_false]
+  constructor
+  · intro h k hk
+    cases hg : m.get k with
+    | none => rfl
+    | some v => exact absurd hk (h k (FMap.mem_keys_of_get hg))
+  · intro h k hk hanc
+    obtain ⟨v, hv⟩ := FMap.get_of_mem_keys hk
+    rw [h k hanc] at hv; cases hv
+
+theorem hasDescendant_false_iff {α : Type} (m : FMap α) (p : Path) :
+    hasDescendant m p = false ↔ ∀ k, isAncestor p k = true → m.get k = none := by
+  unfold hasDescendant
+  rw [List.any_eq_false]
+  constructor
+  · intro h k hk
+    cases hg : m.get k with
+    | none => rfl
+    | some v => exact absurd hk (h k (FMap.mem_keys_of_get hg))
+  · intro h k hk hanc
+    obtain ⟨v, hv⟩ := FMap.get_of_mem_keys hk
+    rw [h k hanc] at hv; cases hv
+
+theorem linkAnc_of_anc {wd : FMap WFile} {p : Path} (h : hasFileAncestor wd p = false) :
+    hasLinkAncestor wd p = false := by
+  unfold hasLinkAncestor
+  unfold hasFileAncestor at h
+  rw [List.any_eq_false] at h ⊢
+  intro k hk
+  have := h k hk
+  simp at this
+  simp [this]
+
+theorem isAncestor_ne {k p : Path} (h : isAncestor k p = true) : k ≠ p := by
+  intro e
+  subst e
+  unfold isAncestor at h
+  rw [List.isPrefixOf_iff_prefix] at h
+  obtain ⟨t, ht⟩ := h
+  have := congrArg List.length ht
+  simp at this
+
+/-- Processing the changes at one path, from the state a clean checkout of `a` left there, when
+nothing lies above `p` in the directory and — if something is to be written — nothing below. -/
+theorem applyChangesAt' {a b : FMap Entry} {fA : FMap WFile} {obs : Obs} {s : WT} {p : Path}
+    (hanc : hasFileAncestor s.wd p = false)
+    (hdesc : ∀ y, b.get p = some y → hasDescendant s.wd p = false)
+    (hva : ∀ x, a.get p = some x → validPath p = true) (hvb : ∀ y, b.get p = some y → validPath p = true)
+    (hobs : ∀ y, b.get p = some y → ∃ o, obs.get p = some o)
+    (hfA0 : a.get p = none → fA.get p = none)
+    (hfA1 : ∀ x, a.get p = some x → ∃ f, fA.get p = some f ∧ f.entry = x)
+    (hwd : s.wd.get p = fA.get p) (hidx : s.index.get p = (fA.get p).map WFile.ientry) :
+    ∃ s', applyChanges obs s (changesAt a b p) = (s', none) ∧
+      s'.wd.get p = targetWd a b fA obs p ∧
+      s'.index.get p = (targetWd a b fA obs p).map WFile.ientry ∧
+      ∀ q, q ≠ p → s'.wd.get q = s.wd.get q ∧ s'.index.get q = s.index.get q := by
+  have hlink := linkAnc_of_anc hanc
+  have view_none : ∀ {wd : FMap WFile}, hasFileAncestor wd p = false → hasDescendant wd p = false →
+      wd.get p = none → lstatView wd p = .enoent := by
+    intro wd h1 h2 h3
+    rw [lstatView_noAnc_none h1 h3, h2]; rfl
+  have erased : (FMap.erase s.wd p).get p = none ∧ (FMap.erase s.index p).get p = none ∧
+      ∀ q, q ≠ p → (FMap.erase s.wd p).get q = s.wd.get q ∧ (FMap.erase s.index p).get q = s.index.get q :=
+    ⟨FMap.get_erase_same _ _, FMap.get_erase_same _ _,
+      fun q hq => ⟨FMap.get_erase_ne _ hq, FMap.get_erase_ne _ hq⟩⟩
+  have written : ∀ (wd0 : FMap WFile) (ix0 : FMap IEntry) (f : WFile),
+      (wd0.put p f).get p = some f ∧ (ix0.put p f.ientry).get p = some f.ientry ∧
+      ∀ q, q ≠ p → (wd0.put p f).get q = wd0.get q ∧ (ix0.put p f.ientry).get q = ix0.get q :=
+    fun wd0 ix0 f => ⟨FMap.get_put_same _ _ _, FMap.get_put_same _ _ _,
+      fun q hq => ⟨FMap.get_put_ne _ _ hq, FMap.get_put_ne _ _ hq⟩⟩
+  unfold changesAt targetWd
+  cases ha : a.get p with
+  | none =>
+    have hn : s.wd.get p = none := by rw [hwd, hfA0 ha]
+    cases hb : b.get p with
+    | none =>
+      refine ⟨s, rfl, ?_, ?_, fun q _ => ⟨rfl, rfl⟩⟩
+      · simp [hn]
+      · simp [hidx, hfA0 ha]
+    | some y =>
+      obtain ⟨o, ho⟩ := hobs y hb
+      have hstep := @transitionToFile_absent obs s p y o (hvb y hb) hlink (view_none hanc (hdesc y hb) hn) ho
+      obtain ⟨w2, w3, w4⟩ := written s.wd s.index (fileOf y o)
+      refine ⟨_, applyChanges_one (c := .add p y) hstep, ?_, ?_, w4⟩
+      · simp [w2, ho]
+      · simp [w3, ho]
+  | some x =>
+    obtain ⟨f, hf, hfx⟩ := hfA1 x ha
+    have hg : s.wd.get p = some f := by rw [hwd, hf]
+    have hview := lstatView_noAnc_some hanc hg
+    have hdel := @transitionToAbsent_file s p f (hva x ha) hview
+    obtain ⟨e2, e3, e4⟩ := erased
+    cases hb : b.get p with
+    | none =>
+      refine ⟨_, applyChanges_one (c := .delete p x) hdel, ?_, ?_, e4⟩
+      · simp [e2]
+      · simp [e3]
+    | some y =>
+      obtain ⟨o, ho⟩ := hobs y hb
+      by_cases hxy : x = y
+      · subst hxy
+        refine ⟨s, by simp [applyChanges], ?_, ?_, fun q _ => ⟨rfl, rfl⟩⟩
+        · simp [hwd]
+        · simp [hidx]
+      · have hne : ¬ (some x = some y) := fun e => hxy (Option.some.inj e)
+        simp only [hxy, if_false, hne]
+        by_cases hlk : isLink x.kind = isLink y.kind
+        · have hfk : isLink f.kind = isLink y.kind := by rw [← hlk, ← hfx]; rfl
+          have hstep := @transitionToFile_differs obs s p y o f (hvb y hb) hlink hview
+            (by rw [hfx]; exact hxy) hfk ho
+          obtain ⟨w2, w3, w4⟩ := written s.wd s.index (fileOf y o)
+          refine ⟨_, by simpa [hlk] using applyChanges_one (c := .modify p x y) hstep, ?_, ?_, w4⟩
+          · simp [w2, ho]
+          · simp [w3, ho]
+        · have hanc1 : hasFileAncestor (FMap.erase s.wd p) p = false := by
+            rw [hasFileAncestor_false_iff] at hanc ⊢
+            intro k hk
+            rw [FMap.get_erase_ne _ (isAncestor_ne hk)]
+            exact hanc k hk
+          have hdesc1 : hasDescendant (FMap.erase s.wd p) p = false := by
+            have := hdesc y hb
+            rw [hasDescendant_false_iff] at this ⊢
+            intro k hk
+            rw [FMap.get_erase_ne _ (isAncestor_ne hk).symm]
+            exact this k hk
+          have hstep := @transitionToFile_absent obs ⟨s.wd.erase p, s.index.erase p⟩ p y o (hvb y hb)
+            (linkAnc_of_anc hanc1) (view_none hanc1 hdesc1 e2) ho
+          obtain ⟨w2, w3, w4⟩ := written (s.wd.erase p) (s.index.erase p) (fileOf y o)
+          have hlk' : (isLink x.kind != isLink y.kind) = true := by simpa using hlk
+          refine ⟨_, by simpa [hlk'] using applyChanges_two (c := .delete p x) (d := .add p y) hdel hstep,
+            ?_, ?_, ?_⟩
+          · simp [w2, ho]
+          · simp [w3, ho]
+          · intro q hq
+            exact ⟨(w4 q hq).1.trans (e4 q hq).1, (w4 q hq).2.trans (e4 q hq).2⟩
+
+
+/-! ### the list of changed paths is strictly sorted -/
+
+def SortedP (l : List Path) : Prop := l.Pairwise (fun x y => pathLt x y = true)
+
+theorem sorted_insertPath {p : Path} {l : List Path} (hl : SortedP l) : SortedP (insertPath p l) := by
+  induction l with
+  | nil => simp [insertPath, SortedP]
+  | cons q r ih =>
+    unfold SortedP at hl ih ⊢
+    rw [List.pairwise_cons] at hl
+    unfold insertPath
+    split
+    · exact List.pairwise_cons.mpr hl
+    · rename_i hpq
+      split
+      · rename_i hlt
+        rw [List.pairwise_cons]
+        refine ⟨?_, List.pairwise_cons.mpr hl⟩
+        intro y hy
+        rcases List.mem_cons.mp hy with e | e
+        · rw [e]; exact hlt
+        · exact pathLt_trans hlt (hl.1 y e)
+      · rename_i hnlt
+        rw [List.pairwise_cons]
+        refine ⟨?_, ih hl.2⟩
+        intro y hy
+        rcases (mem_insertPath p y r).mp hy with e | e
+        · rw [e]
+          rcases pathLt_total p q with h | h | h
+          · exact absurd h hnlt
+          · exact absurd h hpq
+          · exact h
+        · exact hl.1 y e
+
+theorem sorted_sortPaths (l : List Path) : SortedP (sortPaths l) := by
+  induction l with
+  | nil => simp [sortPaths, SortedP]
+  | cons x r ih =>
+    have : sortPaths (x :: r) = insertPath x (sortPaths r) := rfl
+    rw [this]; exact sorted_insertPath ih
+
+theorem sorted_changedPathOrder (a b : FMap Entry) : SortedP (changedPathOrder a b) := sorted_sortPaths _
+
+/-- No path of `b` has paths of `a` below it: no directory of `a` becomes a file. -/
+def NoDirToFile (a b : FMap Entry) : Prop := b.keys.all (fun p => !hasDescendant a p) = true
+
+instance (a b : FMap Entry) : Decidable (NoDirToFile a b) := by unfold NoDirToFile; infer_instance
+
+theorem TreeWF.apply {t : FMap Entry} (h : TreeWF t) {k p : Path} {e : Entry} (hp : t.get p = some e)
+    (hk : isAncestor k p = true) : t.get k = none := by
+  have := (List.all_eq_true.mp h) p (FMap.mem_keys_of_get hp)
+  simp only [Bool.not_eq_eq_eq_not, Bool.not_true] at this
+  exact (hasFileAncestor_false_iff t p).mp this k hk
+
+theorem NoDirToFile.apply {a b : FMap Entry} (h : NoDirToFile a b) {p k : Path} {e : Entry}
+    (hp : b.get p = some e) (hk : isAncestor p k = true) : a.get k = none := by
+  have := (List.all_eq_true.mp h) p (FMap.mem_keys_of_get hp)
+  simp only [Bool.not_eq_eq_eq_not, Bool.not_true] at this
+  exact (hasDescendant_false_iff a p).mp this k hk
+
+/-- Processing the changes at every path of a strictly sorted list: the paths still to come are in the
+state the clean checkout of `a` left, all others are already in their target state. -/
+theorem applyChanges_sorted {a b : FMap Entry} {fA : FMap WFile} {obs : Obs}
+    (hwfb : TreeWF b) (hndf : NoDirToFile a b)
+    (hva : ∀ p x, a.get p = some x → validPath p = true) (hvb : ∀ p y, b.get p = some y → validPath p = true)
+    (hobs : ∀ p y, b.get p = some y → ∃ o, obs.get p = some o)
+    (hfA0 : ∀ p, a.get p = none → fA.get p = none)
+    (hfA1 : ∀ p x, a.get p = some x → ∃ f, fA.get p = some f ∧ f.entry = x)
+    (L : List Path) (hL : SortedP L) (hLK : ∀ p ∈ L, p ∈ a.keys ++ b.keys) (s : WT)
+    (hA : ∀ p ∈ L, s.wd.get p = fA.get p ∧ s.index.get p = (fA.get p).map WFile.ientry)
+    (hT : ∀ p, p ∉ L → s.wd.get p = targetWd a b fA obs p ∧
+      s.index.get p = (targetWd a b fA obs p).map WFile.ientry) :
+    ∃ s', applyChanges obs s (L.flatMap (changesAt a b)) = (s', none) ∧
+      ∀ p, s'.wd.get p = targetWd a b fA obs p ∧
+        s'.index.get p = (targetWd a b fA obs p).map WFile.ientry := by
+  induction L generalizing s with
+  | nil => exact ⟨s, rfl, fun p => hT p List.not_mem_nil⟩
+  | cons p r ih =>
+    unfold SortedP at hL
+    rw [List.pairwise_cons] at hL
+    -- nothing of `b` lies above `p`
+    have hbk : ∀ k, isAncestor k p = true → b.get k = none := by
+      intro k hk
+      rcases List.mem_append.mp (hLK p List.mem_cons_self) with hp | hp
+      · obtain ⟨x, hx⟩ := FMap.get_of_mem_keys hp
+        cases hb : b.get k with
+        | none => rfl
+        | some y => rw [hndf.apply hb hk] at hx; cases hx
+      · obtain ⟨y, hy⟩ := FMap.get_of_mem_keys hp
+        exact hwfb.apply hy hk
+    have hnotin : ∀ k, isAncestor k p = true → k ∉ p :: r := by
+      intro k hk hmem
+      rcases List.mem_cons.mp hmem with e | e
+      · exact isAncestor_ne hk e
+      · have h1 := hL.1 k e
+        rw [pathLt_asymm (isAncestor_pathLt hk)] at h1; cases h1
+    have hanc : hasFileAncestor s.wd p = false := by
+      rw [hasFileAncestor_false_iff]
+      intro k hk
+      rw [(hT k (hnotin k hk)).1]
+      simp [targetWd, hbk k hk]
+    have hdesc : ∀ y, b.get p = some y → hasDescendant s.wd p = false := by
+      intro y hy
+      rw [hasDescendant_false_iff]
+      intro k hk
+      by_cases hkL : k ∈ p :: r
+      · rw [(hA k hkL).1]
+        exact hfA0 k (hndf.apply hy hk)
+      · rw [(hT k hkL).1]
+        have : b.get k = none := by
+          cases hb : b.get k with
+          | none => rfl
+          | some z => rw [hwfb.apply hb hk] at hy; cases hy
+        simp [targetWd, this]
+    obtain ⟨s1, h1, w1, i1, o1⟩ := applyChangesAt' (a := a) (b := b) (fA := fA) (obs := obs) hanc hdesc
+      (hva p) (hvb p) (hobs p) (hfA0 p) (hfA1 p) (hA p List.mem_cons_self).1 (hA p List.mem_cons_self).2
+    have hpr : p ∉ r := fun e => by have := hL.1 p e; rw [pathLt_irrefl] at this; cases this
+    have hA1 : ∀ q ∈ r, s1.wd.get q = fA.get q ∧ s1.index.get q = (fA.get q).map WFile.ientry := by
+      intro q hq
+      have hqp : q ≠ p := fun e => hpr (e ▸ hq)
+      rw [(o1 q hqp).1, (o1 q hqp).2]
+      exact hA q (List.mem_cons_of_mem _ hq)
+    have hT1 : ∀ q, q ∉ r → s1.wd.get q = targetWd a b fA obs q ∧
+        s1.index.get q = (targetWd a b fA obs q).map WFile.ientry := by
+      intro q hq
+      by_cases hqp : q = p
+      · rw [hqp]; exact ⟨w1, i1⟩
+      · rw [(o1 q hqp).1, (o1 q hqp).2]
+        exact hT q (fun e => by rcases List.mem_cons.mp e with e | e; exact hqp e; exact hq e)
+    obtain ⟨s2, h2, t2⟩ := ih hL.2 (fun q hq => hLK q (List.mem_cons_of_mem _ hq)) s1 hA1 hT1
+    refine ⟨s2, ?_, t2⟩
+    rw [List.flatMap_cons, applyChanges_append, h1]
+    exact h2
+
+
+/-- In a synced world a file that is to become a directory still is what HEAD says: the "paths
+becoming directories" check passes. -/
+theorem preCheckDirs_synced {w : World} (h : Synced w) (b : FMap Entry) :
+    preCheckDirs w.wd (changes w.head b) = .ok () := by
+  unfold preCheckDirs
+  apply foldl_ok
+  intro ch hch
+  obtain ⟨_, h2, _⟩ := changes_mem hch
+  cases ch with
+  | add p e => rfl
+  | modify p x y => rfl
+  | delete p old =>
+    have hold : w.head.get p = some old := h2 p old rfl
+    have hh := h.head p
+    rw [hold] at hh
+    cases hw : w.wd.get p with
+    | none => rw [hw] at hh; cases hh
+    | some f =>
+      rw [hw] at hh
+      have hfe : f.entry = old := (Option.some.inj hh).symm
+      have hm : fileMatches f old = true := by
+        rw [← hfe]; simp [fileMatches, WFile.entry]
+      simp only [h.view hw, hm]
+      split <;> simp
 
 end Dulwich.WorkTree
